@@ -1175,6 +1175,12 @@ class Node:
                 peer_list.append(peer)
         app._node = self
         app.start()
+        # an application added while the node is running may find its peers
+        # connected already
+        for peer in peers:
+            if peer.connection and peer.connection.state in PEER_READY_STATES:
+                app.is_ready.set()
+                break
 
     def add_peer(self, peer_uri: str, realm_name: str = None,
                  ip_addresses: list[str] = None,
